@@ -1,8 +1,8 @@
 (* Props_C16.v — property C16: ONLY theorem statements, each closed by [exact] of a lemma from
    C16_Proofs / C16_Proofs2, followed by Print Assumptions.
    [step keep t now chain finisher] is the model of one call on table [t] with NowFunc() = now;
-   keep = false is Statement.clone as it is in /repo (attrs/assigns not copied) and is what the
-   correspondence checker evaluates ([step_repo]); keep = true is the tree with the proposed patch.
+   keep = true is Statement.clone as it is in /repo (attrs/assigns copied, commit 2b43abc) and is what
+   the correspondence checker evaluates ([step_repo]); keep = false is the tree before that fix.
    [wf t] = keys strictly increasing (a table as a primary-key index stores it). *)
 From Verif Require Import Base C16_Model C16_Spec C16_Proofs C16_Proofs2.
 Open Scope Z_scope.
@@ -78,19 +78,18 @@ Theorem c16_create_at_most_one : forall keep t now ch ic, chain_keeps_key ch ->
 Proof. exact foc_step_one. Qed.
 Print Assumptions c16_create_at_most_one.
 
-(* what they return, read on what the caller wrote (Session/WithContext erased): the first match
-   with Assign applied, or else the record built from conditions, then Attrs, then Assign *)
-Theorem c16_init_reading : forall keep t now ch ic,
-  keep = true \/ session_safe ch = true ->
-  step keep t now ch (FInit ic) = ref_init t (ch_conds ch ++ ic) (ch_attrs ch) (ch_assigns ch).
-Proof. exact init_reading. Qed.
+(* what they return, read on what the caller wrote (Session/WithContext erased), for EVERY chain:
+   the first match with Assign applied, or else the record built from conditions, then Attrs, then
+   Assign *)
+Theorem c16_init_reading : forall t now ch ic,
+  step_repo t now ch (FInit ic) = ref_init t (ch_conds ch ++ ic) (ch_attrs ch) (ch_assigns ch).
+Proof. exact init_reading_repo. Qed.
 Print Assumptions c16_init_reading.
 
-Theorem c16_create_reading : forall keep t now ch ic,
-  keep = true \/ session_safe ch = true ->
-  step keep t now ch (FFoc ic)
+Theorem c16_create_reading : forall t now ch ic,
+  step_repo t now ch (FFoc ic)
   = ref_foc t now (ch_conds ch) (ch_conds ch ++ ic) (ch_attrs ch) (ch_assigns ch).
-Proof. exact foc_reading. Qed.
+Proof. exact foc_reading_repo. Qed.
 Print Assumptions c16_create_reading.
 
 (* a found row with Assign: exactly that row is updated, the record handed back is the row stored *)
@@ -106,24 +105,20 @@ Proof. exact foc_found_assign. Qed.
 Print Assumptions c16_found_assign.
 
 (* ---- position of Session / WithContext ------------------------------------------------------- *)
-(* REFUTED on the tree as it is: Attrs(Acct{Email:"m@e"}).Session(&Session{}).FirstOrInit(&u,
-   map{name:"zz"}) on an empty table returns a record without the e-mail *)
-Theorem c16_session_invariant_refuted : exists t now ch f,
-  res_ret (step_repo t now ch f) <> res_ret (step_repo t now (erase ch) f).
-Proof. exact session_refuted. Qed.
-Print Assumptions c16_session_invariant_refuted.
-
-(* PARTIAL on the tree as it is: chains with no Session/WithContext after an Attrs/Assign *)
-Theorem c16_session_invariant_partial : forall t now ch f, session_safe ch = true ->
+(* none of this depends on a Session or WithContext call placed anywhere in the chain: for every
+   table, clock, chain and finisher the result equals that of the chain with them erased *)
+Theorem c16_session_invariant : forall t now ch f,
   step_repo t now ch f = step_repo t now (erase ch) f.
-Proof. exact session_partial. Qed.
-Print Assumptions c16_session_invariant_partial.
+Proof. exact session_invariant. Qed.
+Print Assumptions c16_session_invariant.
 
-(* TOTAL once Statement.clone copies attrs and assigns (the proposed two-line patch) *)
-Theorem c16_session_invariant_patched : forall t now ch f,
-  step true t now ch f = step true t now (erase ch) f.
-Proof. exact session_patched. Qed.
-Print Assumptions c16_session_invariant_patched.
+(* the copy of attrs/assigns in Statement.clone is necessary: without it (the tree before commit
+   2b43abc) Attrs(Acct{Email:"m@e"}).Session(&Session{}).FirstOrInit(&u, map{name:"zz"}) on an empty
+   table returns a record without the e-mail (corpus/C16, replayed on gorm on every run) *)
+Theorem c16_session_invariant_needs_clone_copy : exists t now ch f,
+  res_ret (step false t now ch f) <> res_ret (step false t now (erase ch) f).
+Proof. exact session_refuted. Qed.
+Print Assumptions c16_session_invariant_needs_clone_copy.
 
 (* ---- histories ---------------------------------------------------------------------------------- *)
 (* every history from a well-formed table (e.g. the empty one) stays well-formed, so the theorems
@@ -136,10 +131,9 @@ Print Assumptions c16_history_wf.
 (* non-vacuity of the hypotheses *)
 Example c16_instance :
   wf [mk_rec 1 "a" 1 "" 2 3 None; mk_rec 3 "b" 0 "x@e" 2 3 (Some 8)]
-  /\ session_safe [ECtx; EWhere (CMap [(CName, VStr "a")]); ESession; EAttrs [AKV CAge (VInt 5)]; EAssign [AMap [(CEmail, VStr "m@e")]]] = true
   /\ chain_keeps_key [EAssign [AMap [(CEmail, VStr "m@e")]]]
   /\ first_match [mk_rec 1 "a" 1 "" 2 3 None] ([CMap [(CName, VStr "a")]] ++ []) = Some (mk_rec 1 "a" 1 "" 2 3 None).
 Proof.
-  split; [exists 0; cbn; lia|]. split; [reflexivity|]. split; [|reflexivity].
+  split; [exists 0; cbn; lia|]. split; [|reflexivity].
   intros a [H|[]]. inversion H; subst. reflexivity.
 Qed.
